@@ -71,6 +71,10 @@ theorem C36_nil_member_not_mine (addr : Bytes) (port : Nat) (h : addr ≠ [] ∨
     | cons a as => simp [mine, ipEqual]
   · simp [mine, h]
 
+/-- The hypothesis of `C36_nil_member_not_mine` is needed: a node whose own address is nil and port 0 (not
+reachable: memberlist always advertises an address) would count a nil member as a vote for itself. -/
+theorem C36_nil_member_degenerate : mine [] 0 none = true := by decide
+
 /-! ### Tie to the source (regenerated on every run) -/
 
 /-- **The vote as it is in the source**: type check, then a FRESH `var member Member`, then the decode,
